@@ -1,30 +1,59 @@
-/* C18 correspondence harness (1/3): the real qmail-clean.c main() — every request string, every unlink outcome.
- * usage: c18_clean <L1> <L2> <nrandom> <seed> <shard> <nshards>   |   c18_clean -   (cases "C <chunk> <plan> <hex>" on stdin)
- * output per case:  C <chunk> <plan-hex> <input-hex> <trace>
- *   plan : one byte per unlink() call in order: 00 = succeeds, 01 = fails ENOENT, 02 = fails EIO (missing = 00)
+/* C18 correspondence harness (1/3): the real qmail-clean.c main() incl. cleanuppid() — every request string, every unlink
+ * outcome, scripted contents of pid/.
+ * usage: c18_clean <L1> <L2> <nrandom> <seed> <shard> <nshards>   |   c18_clean -   (cases "C <chunk> <plan> <hex> [<scans>]" on stdin)
+ * output per case:  C <chunk> <plan-hex> <input-hex> <scans> <trace>
+ *   plan : one byte per unlink() call of the request loop in order: 00 = succeeds, 01 = fails ENOENT, 02 = fails EIO (missing = 00);
+ *          the unlinks of cleanuppid() (between opendir and closedir) always succeed and do not consume the plan (their result is
+ *          ignored by the code)
+ *   scans: what the successive calls of cleanuppid() see, joined by ';' ("-" = none: every opendir fails):
+ *            <now>@!                      now() and a failing opendir("pid")
+ *            <now>@-                      an empty directory
+ *            <now>@<ent>+<ent>+...        readdir order; <ent> = <name-hex>=<atime>  or  <name-hex>=x  (stat fails)
  *   trace: comma separated events in program order:  u<path-hex>  (unlink called with this path)
  *                                                    s<byte-hex>  (one write of status bytes on fd 1)
- *                                                    o<path-hex>  (opendir), e<code> (main returned / _exit) */
+ *                                                    o<path-hex>  (opendir), c (closedir), e<code> (main returned / _exit) */
 #include "hcommon.h"
 #include <dirent.h>
 #include <errno.h>
 #include <sys/stat.h>
+#include <sys/types.h>
+#include <time.h>
 
+static time_t h_time(time_t *t);
 static int h_chdir(const char *p) { return 0; }
 static int h_unlink(const char *p);
 static DIR *h_opendir(const char *p);
+static struct dirent *h_readdir(DIR *d);
+static int h_closedir(DIR *d);
+static int h_stat(const char *p, struct stat *st);
 
 #define _exit(x) h_exit(x)
 #define main qmail_clean_main
 #define chdir h_chdir
 #define unlink h_unlink
 #define opendir h_opendir
+#define readdir h_readdir
+#define closedir h_closedir
+#define stat(p,b) h_stat(p,b)
+#define time(x) h_time(x)
 #include "qmail-clean.c"
 #undef main
 #undef _exit
 #undef chdir
 #undef unlink
 #undef opendir
+#undef readdir
+#undef closedir
+#undef stat
+#undef time
+
+/* scripted pid/ directory */
+#define MAXSCAN 8
+#define MAXENT 12
+struct h_ent { char name[256]; int statok; long atime; };
+struct h_scan { long now; int open_ok; int nent; struct h_ent ent[MAXENT]; };
+static struct h_scan scans[MAXSCAN]; static int nscans, scan_pos;
+static struct h_scan *cur_scan; static int ent_pos, in_cleanup;
 
 static const unsigned char *in_p; static size_t in_n, in_pos; static int in_chunk;
 static const unsigned char *plan_p; static size_t plan_n, plan_pos;
@@ -38,13 +67,39 @@ static void ev(char tag, const unsigned char *p, size_t n) {
 
 static int h_unlink(const char *p) {
   ev('u', (const unsigned char *)p, strlen(p));
+  if (in_cleanup) return 0;
   int r = plan_pos < plan_n ? plan_p[plan_pos] : 0;
   plan_pos++;
   if (r == 0) return 0;
   errno = (r == 1) ? ENOENT : EIO;
   return -1;
 }
-static DIR *h_opendir(const char *p) { ev('o', (const unsigned char *)p, strlen(p)); errno = ENOENT; return 0; }
+static time_t h_time(time_t *t) { return scan_pos < nscans ? scans[scan_pos].now : 0; }   /* now() = time(NULL) */
+static DIR *h_opendir(const char *p) {
+  static int dummy;
+  ev('o', (const unsigned char *)p, strlen(p));
+  cur_scan = scan_pos < nscans ? &scans[scan_pos] : 0;
+  scan_pos++;
+  if (!cur_scan || !cur_scan->open_ok) { cur_scan = 0; errno = ENOENT; return 0; }
+  ent_pos = 0; in_cleanup = 1;
+  return (DIR *)&dummy;
+}
+static struct dirent *h_readdir(DIR *d) {
+  static struct dirent de;
+  if (!cur_scan || ent_pos >= cur_scan->nent) return 0;
+  memset(&de, 0, sizeof de);
+  strcpy(de.d_name, cur_scan->ent[ent_pos++].name);
+  return &de;
+}
+static int h_closedir(DIR *d) { if (!first_ev) fputc(',', h_out); first_ev = 0; fputc('c', h_out); in_cleanup = 0; cur_scan = 0; return 0; }
+/* stat("pid/<name>") of the entry readdir returned last; any other path does not exist */
+static int h_stat(const char *p, struct stat *st) {
+  struct h_ent *e = (cur_scan && ent_pos > 0) ? &cur_scan->ent[ent_pos - 1] : 0;
+  if (!e || strncmp(p, "pid/", 4) || strcmp(p + 4, e->name) || !e->statok) { errno = ENOENT; return -1; }
+  memset(st, 0, sizeof *st);
+  st->st_atime = e->atime; st->st_mtime = 0; st->st_mode = S_IFREG | 0600;
+  return 0;
+}
 
 static ssize_t h_read(int fd, void *buf, size_t len) {
   size_t k = in_n - in_pos;
@@ -62,11 +117,55 @@ static substdio h_outs = SUBSTDIO_FDBUF(h_write, 1, h_outbuf, 256);
 substdio *subfdinsmall = &h_in;
 substdio *subfdoutsmall = &h_outs;
 
+static void print_scans(void) {
+  if (!nscans) { fputc('-', h_out); return; }
+  for (int i = 0; i < nscans; i++) {
+    if (i) fputc(';', h_out);
+    fprintf(h_out, "%ld@", scans[i].now);
+    if (!scans[i].open_ok) fputc('!', h_out);
+    else if (!scans[i].nent) fputc('-', h_out);
+    else for (int j = 0; j < scans[i].nent; j++) {
+      struct h_ent *e = &scans[i].ent[j];
+      if (j) fputc('+', h_out);
+      h_hex((const unsigned char *)e->name, strlen(e->name));
+      if (e->statok) fprintf(h_out, "=%ld", e->atime); else fputs("=x", h_out);
+    }
+  }
+}
+
+/* "<now>@<ents>;..." -> scans[]; malformed parts are dropped */
+static void parse_scans(const char *s) {
+  nscans = 0;
+  if (!s || !*s || !strcmp(s, "-")) return;
+  while (*s && nscans < MAXSCAN) {
+    struct h_scan *sc = &scans[nscans];
+    char *end;
+    sc->now = strtol(s, &end, 10); sc->open_ok = 1; sc->nent = 0;
+    if (*end != '@') return;
+    s = end + 1;
+    if (*s == '!') { sc->open_ok = 0; s++; }
+    else if (*s == '-') s++;
+    else while (*s && *s != ';') {
+      struct h_ent e; int k = 0;
+      while (s[0] && s[1] && s[0] != '=' && k < 255) { unsigned v; sscanf(s, "%2x", &v); e.name[k++] = (char)v; s += 2; }
+      e.name[k] = 0;
+      if (*s != '=') return;
+      s++;
+      if (*s == 'x') { e.statok = 0; e.atime = 0; s++; } else { e.statok = 1; e.atime = strtol(s, &end, 10); s = end; }
+      if (sc->nent < MAXENT && k > 0) sc->ent[sc->nent++] = e;
+      if (*s == '+') s++;
+    }
+    nscans++;
+    if (*s == ';') s++;
+  }
+}
+
 static void one(const unsigned char *m, size_t n, int chunk, const unsigned char *plan, size_t pn) {
   h_in.p = 0; h_in.n = 256; h_outs.p = 0;
   in_p = m; in_n = n; in_pos = 0; in_chunk = chunk;
   plan_p = plan; plan_n = pn; plan_pos = 0;
-  fprintf(h_out, "C %d ", chunk); h_hex(plan, pn); fputc(' ', h_out); h_hex(m, n); fputc(' ', h_out);
+  scan_pos = 0; cur_scan = 0; ent_pos = 0; in_cleanup = 0;
+  fprintf(h_out, "C %d ", chunk); h_hex(plan, pn); fputc(' ', h_out); h_hex(m, n); fputc(' ', h_out); print_scans(); fputc(' ', h_out);
   first_ev = 1;
   int rc;
   h_exit_armed = 1;
@@ -118,11 +217,13 @@ int main(int argc, char **argv) {
   __asan_set_death_callback(h_death);
 #endif
   if (argc > 1 && !strcmp(argv[1], "-")) {
-    static char line[400000], hx[400000], pl[4000], tag[16]; static unsigned char b[200000], pb[2000];
+    static char line[400000], hx[400000], pl[4000], tag[16], scs[40000]; static unsigned char b[200000], pb[2000];
     while (fgets(line, sizeof line, stdin)) {
       int chunk;
-      if (sscanf(line, "%15s %d %3999s %399999s", tag, &chunk, pl, hx) != 4 || tag[0] != 'C') continue;
+      scs[0] = 0;
+      if (sscanf(line, "%15s %d %3999s %399999s %39999s", tag, &chunk, pl, hx, scs) < 4 || tag[0] != 'C' || tag[1]) continue;
       int pn = unhex(pl, pb);
+      parse_scans(scs);
       one(b, unhex(hx, b), chunk, pb, pn);
     }
     fflush(h_out);
@@ -132,6 +233,7 @@ int main(int argc, char **argv) {
   uint64_t seed = (uint64_t)h_argi(argc, argv, 4, 1);
   int shard = h_argi(argc, argv, 5, 0), nshards = h_argi(argc, argv, 6, 1);
   uint64_t id = 0;
+  nscans = 0;
   /* (1),(2) every stream over the letters of one keyword, '/', one digit, NUL and one foreign letter */
   static const unsigned char a1[7] = { 'f', 'o', 'p', '/', '1', 0, 'x' };
   static const unsigned char a2[7] = { 't', 'o', 'd', '/', '1', 0, 'X' };
@@ -179,6 +281,69 @@ int main(int argc, char **argv) {
       if (!(q == nreq - 1 && !h_below(10))) b[n++] = 0;
     }
     one(b, n, (int[]){0, 0, 1, 2, 7, 100, 255}[h_below(7)], plan, pn);
+  }
+  /* (5) cleanuppid(): scripted pid/.  (a) seed-independent: one entry, every name class x every stat/atime class around the
+   *     OSSIFIED boundary x two clocks, followed by one valid request; the empty directory; a failing opendir.
+   *     (b) seeded random: 0..70 short requests (so that the sweeps of iterations 0, 31 and 62 all run) with 0..4 scans of
+   *     0..6 entries, atimes around the boundary, stat failures, random unlink outcomes for the requests. */
+  static const char *names[] = { ".", "..", "1", "4711", "x", "...", ".a", "..b", "a b", "\377\001", "12345678901234567890",
+                                 "intd", "foop", 0 };
+  static char longname[256]; memset(longname, 'n', 255); longname[255] = 0;
+  const long OSS = OSSIFIED;
+  {
+    static const long clocks[2] = { 129600, 1700000000 };
+    int nn = 0; while (names[nn]) nn++;
+    for (int ni = 0; ni <= nn; ni++) for (int ac = 0; ac < 8; ac++) for (int ck = 0; ck < 2; ck++, id++) {
+      if ((int)(id % nshards) != shard) continue;
+      long nw = clocks[ck];
+      nscans = 1; scans[0].now = nw; scans[0].open_ok = 1; scans[0].nent = 1;
+      struct h_ent *e = &scans[0].ent[0];
+      strcpy(e->name, ni < nn ? names[ni] : longname);
+      e->statok = ac != 0;
+      e->atime = (long[]){ 0, nw - OSS - 1, nw - OSS, nw - OSS + 1, 0, nw, nw + 5, nw - 2 * OSS }[ac];
+      if (e->atime < 0) e->atime = 0;
+      one((const unsigned char *)"todo/5", 7, 0, 0, 0);
+    }
+    if ((int)(id++ % nshards) == shard) { nscans = 1; scans[0].now = 1700000000; scans[0].open_ok = 1; scans[0].nent = 0; one((const unsigned char *)"foop/12", 8, 0, 0, 0); }
+    if ((int)(id++ % nshards) == shard) { nscans = 1; scans[0].now = 1700000000; scans[0].open_ok = 0; scans[0].nent = 0; one((const unsigned char *)"foop/12", 8, 0, 0, 0); }
+    if ((int)(id++ % nshards) == shard) { nscans = 0; one((const unsigned char *)"", 0, 0, 0, 0); }
+    for (int r = 0; r < nrandom / 8; r++) {
+      if ((r % nshards) != shard) continue;
+      static unsigned char b[4096]; size_t n = 0;
+      unsigned char plan[12]; int pn = h_below(3) ? 0 : 1 + h_below(10);
+      for (int i = 0; i < pn; i++) plan[i] = h_below(3);
+      int nreq = (int[]){ 0, 1, 3, 29, 30, 31, 32, 40, 61, 62, 63, 70 }[h_below(12)];
+      for (int q = 0; q < nreq; q++) {
+        int k = h_below(6);
+        if (k < 3) n += sprintf((char *)b + n, "%s%u", k ? "todo/" : "foop/", h_below(50)) + 1;
+        else if (k == 3) { b[n++] = 'x'; b[n++] = 0; }
+        else if (k == 4) n += sprintf((char *)b + n, "pid/%u", h_below(50)) + 1;
+        else b[n++] = 0;
+      }
+      nscans = h_below(5);
+      for (int i = 0; i < nscans; i++) {
+        struct h_scan *sc = &scans[i];
+        sc->now = h_below(4) ? 1600000000 + (long)h_below(200000000) : (long)h_below(300000);
+        sc->open_ok = h_below(6) != 0; sc->nent = sc->open_ok ? h_below(7) : 0;
+        for (int j = 0; j < sc->nent; j++) {
+          struct h_ent *e = &sc->ent[j];
+          if (h_below(3)) sprintf(e->name, "%u", h_below(100000)); else if (!h_below(12)) strcpy(e->name, longname); else strcpy(e->name, names[h_below(nn)]);
+          e->statok = h_below(8) != 0;
+          switch (h_below(6)) {
+            case 0: e->atime = sc->now - OSS; break;
+            case 1: e->atime = sc->now - OSS + 1; break;
+            case 2: e->atime = sc->now - OSS - 1 - (long)h_below(1000000); break;
+            case 3: e->atime = sc->now - (long)h_below(129600); break;
+            case 4: e->atime = sc->now + (long)h_below(100); break;
+            default: e->atime = (long)h_below(2000000000); break;
+          }
+          if (e->atime < 0) e->atime = 0;
+          if (!e->statok) e->atime = 0;
+        }
+      }
+      one(b, n, (int[]){0, 0, 1, 7, 255}[h_below(5)], plan, pn);
+    }
+    nscans = 0;
   }
   fflush(h_out);
   return 0;
